@@ -135,8 +135,11 @@ def strategy(tier):
         'style': st.sampled_from(['fn', 'class']),
         # the application's disconnect handler of one namespace raises at
         # its k-th invocation
+        # (asyncio, 'cancel': it ends in CancelledError, e.g. because it
+        # cancels a worker task of its own and awaits it)
         'disc_fault': st.one_of(st.none(), st.none(), st.fixed_dictionaries({
-            'ns': nsi, 'k': st.integers(0, 2)})),
+            'ns': nsi, 'k': st.integers(0, 2),
+            'exc': st.sampled_from(['runtime', 'runtime', 'cancel'])})),
         # asyncio: the disconnect handlers do some asynchronous work (they
         # yield to the event loop a few times before they return)
         'disc_yields': st.booleans(),
@@ -176,6 +179,10 @@ def _run(case, h):
                 dcount[ns] = n + 1
                 if dfault and NSS[dfault['ns']] == ns and n == dfault['k']:
                     labels['disconnect_handler_raises'] = True
+                    if aio and dfault.get('exc') == 'cancel':
+                        import asyncio
+                        labels['disconnect_handler_cancelled'] = True
+                        raise asyncio.CancelledError()
                     raise RuntimeError(DISC_FAULT)
             if not aio:
                 return fd
